@@ -398,6 +398,108 @@ func TestC11_Fresh(t *testing.T) {
 	})
 }
 
+// ---------------------------------------------------------------------------
+// rule lists holding blocks (hats and sub-profiles are rules of their parent too)
+
+type C11Block struct {
+	Kind string   `json:"kind"` // hat | profile
+	Name string   `json:"name"`
+	Att  []string `json:"att,omitempty"`
+}
+
+type C11Mixed struct {
+	L      []RS       `json:"rules"`
+	Blocks []C11Block `json:"blocks"`
+	Perm   []int      `json:"perm"` // permutation of rules followed by blocks
+}
+
+func (c C11Mixed) rules(perm []int) aa.Rules {
+	var all aa.Rules
+	for _, r := range c.L {
+		all = append(all, r.ToRule())
+	}
+	for _, b := range c.Blocks {
+		if b.Kind == "hat" {
+			all = append(all, &aa.Hat{Name: b.Name})
+		} else {
+			all = append(all, &aa.Profile{Header: aa.Header{Name: b.Name, Attachments: append([]string{}, b.Att...)}})
+		}
+	}
+	res := make(aa.Rules, len(all))
+	for i, p := range perm {
+		res[i] = all[p]
+	}
+	return res
+}
+
+func describeRules(l aa.Rules) string {
+	var b strings.Builder
+	for _, r := range l {
+		switch x := r.(type) {
+		case *aa.Hat:
+			fmt.Fprintf(&b, "hat %s\n", x.Name)
+		case *aa.Profile:
+			fmt.Fprintf(&b, "profile %s %v\n", x.Name, x.Attachments)
+		default:
+			b.WriteString(strings.TrimSpace(r.String()) + "\n")
+		}
+	}
+	return b.String()
+}
+
+func c11MixedOracle(c C11Mixed) (err error) {
+	defer func() {
+		if p := recover(); p != nil {
+			err = fmt.Errorf("Sort panicked: %v", p)
+		}
+	}()
+	n := len(c.L) + len(c.Blocks)
+	a := describeRules(c.rules(intRange(n)).Sort())
+	b := describeRules(c.rules(c.Perm).Sort())
+	if a != b {
+		return fmt.Errorf("sorting the same rules and blocks supplied in another order gives another result:\n--- order A\n%s--- order B\n%s", a, b)
+	}
+	return nil
+}
+
+func TestC11_Mixed(t *testing.T) {
+	ev := NewEv(t, "C11", "mixed", "lists of 1-8 rules of mixed kinds plus 1-4 blocks (hats and sub-profiles with names from a narrow pool, sub-profiles with 0-2 attachments) and a permutation; oracle: Sort gives the same sequence for both orders. Non-trivial: a hat and a sub-profile in one list, or two blocks of one kind; distinct by content")
+	rapid.Check(t, func(t *rapid.T) {
+		var c C11Mixed
+		nr := rapid.IntRange(1, 8).Draw(t, "nrules")
+		for i := 0; i < nr; i++ {
+			c.L = append(c.L, genC11Rule(t, pick(t, "k", c11Kinds), false))
+		}
+		nb := rapid.IntRange(1, 4).Draw(t, "nblocks")
+		seen := map[string]bool{}
+		kinds := map[string]int{}
+		for i := 0; i < nb; i++ {
+			b := C11Block{Kind: pick(t, "bkind", []string{"hat", "profile"}), Name: pick(t, "bname", []string{"sub", "Sub", "foo", "gpg", "x"})}
+			if b.Kind == "profile" {
+				b.Att = subsetOrdered(t, "att", []string{"@{bin}/foo", "/usr/bin/x"}, 0, 2)
+			}
+			k := b.Kind + "|" + b.Name + "|" + strings.Join(b.Att, " ")
+			if seen[k] {
+				continue // identical blocks are indistinguishable: nothing to order
+			}
+			seen[k] = true
+			kinds[b.Kind]++
+			c.Blocks = append(c.Blocks, b)
+		}
+		c.Perm = rapid.Permutation(intRange(len(c.L) + len(c.Blocks))).Draw(t, "perm")
+		key := ""
+		if (kinds["hat"] > 0 && kinds["profile"] > 0) || kinds["hat"] > 1 || kinds["profile"] > 1 {
+			data, _ := json.Marshal(c)
+			key = string(data)
+		}
+		ev.Case(key, fmt.Sprintf("hats:%d", kinds["hat"]), fmt.Sprintf("subprofiles:%d", kinds["profile"]))
+		ev.Sample(c)
+		if err := c11MixedOracle(c); err != nil {
+			t.Fatalf("%s", ev.Fail(c, "", "%v", err))
+		}
+	})
+}
+
 func intRange(n int) []int {
 	r := make([]int, n)
 	for i := range r {
@@ -431,6 +533,10 @@ func TestC11_Replay(t *testing.T) {
 		var c C11List
 		json.Unmarshal(rf.Case, &c)
 		oerr = c11ListOracle(c)
+	case "mixed":
+		var c C11Mixed
+		json.Unmarshal(rf.Case, &c)
+		oerr = c11MixedOracle(c)
 	case "fresh":
 		var c C11List
 		json.Unmarshal(rf.Case, &c)
